@@ -13,6 +13,7 @@ Inductive dec_obs :=
 Record fcase := {
   c_fmt : fmt;
   c_env : env;                                (* class table (inherited fields flattened) *)
+  c_enums : enums;                            (* enum classes: member -> value *)
   c_ty : ty;
   c_val : pv;
   c_tab : ltab;                               (* stdlib renderings of the leaves of c_val *)
@@ -40,6 +41,7 @@ Definition approxb (render: lkind -> string -> string) (omit: bool) (parsed basi
 Definition case_ok (c: fcase) : bool :=
   let F := c.(c_fmt) in
   let E := c.(c_env) in
+  let EN := c.(c_enums) in
   let render := tab_render c.(c_tab) in
   let parse_leaf := tab_parse c.(c_tab) in
   let urender := utab_render c.(c_utab) in
@@ -49,9 +51,9 @@ Definition case_ok (c: fcase) : bool :=
   (* the model's table of the format dialects is what the code declares *)
   forallb (fun k => sentry_eqb (fmt_entry F k) (udial_of c.(c_fmt_entries) k)) all_kinds
   && Bool.eqb (fmt_omit F) c.(c_fmt_omit)
-  && res_bv_is (pack render urender E ls c.(c_val) "" c.(c_ty)) c.(c_pack)
-  && res_bv_is (pack render urender E (user_lsem X) c.(c_val) "" c.(c_ty)) c.(c_basic)
-  && wf_env E && wf_ty E c.(c_ty)
+  && res_bv_is (pack render urender E EN ls c.(c_val) "" c.(c_ty)) c.(c_pack)
+  && res_bv_is (pack render urender E EN (user_lsem X) c.(c_val) "" c.(c_ty)) c.(c_basic)
+  && wf_env E && wf_enums EN && wf_ty E c.(c_ty)
   && Bool.eqb (representable (leaf_repr_of c.(c_unrepr)) F c.(c_pack)) c.(c_insub)
   && match c.(c_parsed) with
      | None => negb c.(c_insub)
@@ -61,7 +63,7 @@ Definition case_ok (c: fcase) : bool :=
          (* parsed ~ basic *)
          && approxb render (omit_none ls) pd c.(c_basic)
          (* decode *)
-         && match unpack parse_leaf uparse E ls pd "" c.(c_ty), c.(c_dec) with
+         && match unpack parse_leaf uparse E EN ls pd "" c.(c_ty), c.(c_dec) with
             | Ok w, DecSame => pv_sim w c.(c_val) && pv_sim c.(c_val) w
             | Err (EMissingField n), DecMissing m => String.eqb n m
             | _, _ => false end
